@@ -475,7 +475,9 @@ def configs(tier):
     out = ['crash ext=.json nmax=3 grow=0', 'crash ext=.json.gz nmax=3 grow=0', 'crash ext=.json nmax=3 grow=1',
            'crash ext=.json nmax=2 grow=0 mode=same', 'crash ext=.json.gz nmax=2 grow=1 mode=same']
     if tier != 'quick':
-        out += ['crash ext=.json.gz nmax=3 grow=1', 'crash ext=.json nmax=4 grow=0', 'crash ext=.json.gz nmax=4 grow=1']
+        out += ['crash ext=.json.gz nmax=3 grow=1', 'crash ext=.json nmax=4 grow=0', 'crash ext=.json.gz nmax=4 grow=1',
+                'crash ext=.json nmax=3 grow=1 mode=same', 'crash ext=.json.gz nmax=3 grow=0 mode=same',
+                'crash ext=.json nmax=5 grow=0']
     return out
 
 
